@@ -73,11 +73,13 @@ pub mod packets {
         open spec fn dec_stop(rest: Seq<u8>) -> bool { true }
         open spec fn functional() -> bool { true }
         //@ fn src:zvt/src/packets.rs | impl encoding::Encoding<usize> for PartialReversalReceiptNo | decode | also=C17,C01 props=C02,C17
-        //@ before ifbytes[0..2]==
+        //@ entry
             proof {
                 // what is handed back is the input without its first two bytes
-                assert(bytes@.subrange(2, bytes@.len() as int) =~= bytes@.skip(2));
-                crate::frame::lemma_tail_intro(bytes@.skip(2), bytes@);
+                if bytes@.len() >= 2 {
+                    assert(bytes@.subrange(2, bytes@.len() as int) =~= bytes@.skip(2));
+                    crate::frame::lemma_tail_intro(bytes@.skip(2), bytes@);
+                }
             }
         //@ end
         //@ fn src:zvt/src/packets.rs | impl encoding::Encoding<usize> for PartialReversalReceiptNo | encode | also=C17,C01 props=C03,C17
